@@ -378,6 +378,8 @@ def run(tier, seed, model):
         reject_before_connect(camp)
         # 5. standard input, and the word "-" as an argument value
         stdin_and_dash(camp)
+        # 6. the whole command line: everything from the first command word on is the script, dashes and all
+        command_line(camp, rng, 60 if tier == "quick" else 1500)
     finally:
         os.chdir(cwd)
         shutil.rmtree(tmp, ignore_errors=True)
@@ -412,6 +414,79 @@ def reject_before_connect(camp):
                 calls.clear()
     finally:
         command.factory_connect = orig
+
+
+def command_line(camp, rng, n):
+    """vncdo [options] WORD...: through the real option parser of vncdo().  Options come first; from the first command word on
+    every word belongs to the script - also words that look like options (type -hello, move 10 -5, key a -v)"""
+    class Stop(Exception):
+        pass
+    seen = []
+
+    def fake_build_tool(options, args):
+        seen.append((options, list(args)))
+        raise Stop()
+    saved = (command.build_tool, command.setup_logging, sys.argv, sys.stdout, sys.stderr)
+    command.build_tool = fake_build_tool
+    command.setup_logging = lambda options: None
+    opts_pool = [(["-v"], ("verbose", 1)), (["-vv"], ("verbose", 2)), (["--delay", "25"], ("delay", 25)), (["-w", "4"], ("warp", 4.0)),
+                 (["--warp=0.5"], ("warp", 0.5)), (["-s", "host7::5911"], ("server", "host7::5911")), (["--nocursor"], ("nocursor", True)),
+                 (["-t", "9"], ("timeout", 9.0)), (["--force-caps"], ("force_caps", True)), (["-p", "pw"], ("password", "pw"))]
+    dashy = ["-v", "-hello", "--delay", "-5", "-", "--warp=2", "-s", "-p", "--", "-t", "-h", "--version", "--nocursor", "-10"]
+    try:
+        for i in range(n):
+            chosen = rng.sample(opts_pool, rng.randrange(0, 4))
+            keys = [k for _, (k, _v) in chosen]
+            if len(set(keys)) != len(keys):
+                continue
+            prefix = [t for toks, _ in chosen for t in toks]
+            words = []
+            for _ in range(rng.randrange(1, 5)):
+                cmd = rng.choice(["type", "key", "move", "pause", "click", "capture", "type", "key"])
+                words.append(cmd)
+                for _ in range({"move": 2}.get(cmd, 1)):
+                    words.append(rng.choice(dashy) if rng.random() < 0.5 else rng.choice(["a", "10", "x.png", "ctrl-c", "0.5"]))
+            if rng.random() < 0.3:
+                words.append(rng.choice(dashy))                   # a stray word at the end: build_tool's to reject, not the parser's to eat
+            sys.argv = ["vncdo"] + prefix + words
+            sys.stdout = sys.stderr = io.StringIO()
+            seen.clear()
+            outcome = None
+            try:
+                command.vncdo()
+                outcome = "returned"
+            except Stop:
+                outcome = "built"
+            except SystemExit as e:
+                outcome = f"exit {e.code}"
+            except Exception as e:  # noqa: BLE001
+                outcome = f"raised {type(e).__name__}: {e}"
+            finally:
+                sys.stdout, sys.stderr = saved[3], saved[4]
+            camp.evaluations += 1
+            camp.count("command-line")
+            camp.count("command-line:dash-words", sum(1 for w_ in words if w_.startswith("-")))
+            camp.nontrivial.add(("argv", tuple(prefix), tuple(words)))
+            why = None
+            if outcome != "built":
+                why = f"vncdo {outcome} before the script reached build_tool"
+            elif seen[0][1] != words:
+                why = f"build_tool received the script {seen[0][1]}"
+            else:
+                o = seen[0][0]
+                for _, (k, v) in chosen:
+                    if getattr(o, k, None) != v:
+                        why = f"option {k} is {getattr(o, k, None)!r}, the command line says {v!r}"
+                defaults = {"verbose": 0, "warp": 1.0, "nocursor": None, "timeout": None, "force_caps": None, "password": None, "server": "127.0.0.1"}
+                for k, v in defaults.items():
+                    if k not in keys and getattr(o, k, v) != v and why is None:
+                        why = f"option {k} became {getattr(o, k)!r} although only script words mention it"
+            if why:
+                camp.oracle_failures.append({"kind": "oracle", "property": "C10", "case": {"argv": prefix + words, "build_tool": True},
+                                             "what": f"vncdo {' '.join(prefix + words)}: the script is {words}; {why}"})
+                return
+    finally:
+        command.build_tool, command.setup_logging, sys.argv, sys.stdout, sys.stderr = saved
 
 
 def stdin_and_dash(camp):
